@@ -6,7 +6,7 @@
 #   /tmp/vmut/target cargo target dir (kept between runs for incremental builds; remove with `tools/mutant.sh --clean`)
 # Prints the check output; exit status 0 iff every listed check reported a VIOLATION (= mutant caught).
 set -u
-M=/tmp/vmut
+M=${VMUT_DIR:-/tmp/vmut}
 if [ "${1:-}" = "--clean" ]; then git -C /repo worktree remove --force $M/repo 2>/dev/null; rm -rf $M; exit 0; fi
 PATCH=$1; shift
 mkdir -p $M
